@@ -16,7 +16,14 @@ O: shape-coverage sweep: every filter constructor x 16 capture shapes (expressio
    calling types.Identical / Implements / SizeOf / String) over recursive, cyclic and very large types (interface cycles through
    1..3 anonymous levels, mutually recursive interfaces, self-referential struct / func / map / slice / pointer / chan types,
    generic lists, 512 KiB arrays) runs in child processes with a 48 MiB stack cap and a time budget: a fatal stack overflow
-   or a hang names the rule and the probe site.
+   or a hang names the rule and the probe site.  Product sweep (harness/cmd/c07/product.go, catalogue.go): 121 pattern roots of
+   every kind x every filter operation on either capture (rejecting form F && !F: every rule of an engine is evaluated on every
+   match), Contains() with list sub-patterns, 76 type patterns of every arity, custom filters, At(), Do(), over a catalogue of
+   alias-nested / type-parameter-nested types and function values of every shape, in child processes under gotypesalias=0 and 1.
+P (second part, go2coq filtertotal2 + RG.Filters.TotalityExt): the root guard of handleMatch, the nil test of renderMessage,
+   hasKnownSize's recursion (known_size_sound for all nested types), the allocations of the two matcher states
+   (walk_total_distinct), the alias normalisation / descents / cases of xtypes.typeIdentical and typematch.matchIdentical
+   (traverse_total), the guard of typematch's decremented index -- each with the refutation of the variant without it.
 """
 import json
 import os
@@ -62,10 +69,15 @@ def run(c):
         "Sizeof asserting on untyped types; go/parser positions lie inside the file (Section hypothesis parser_ranges)",
         "go2coq filtertotal: textual detection of partial operations and of their guards inside each closure (fails closed on "
         "missing functions, conservative: an unrecognised guard counts as unguarded)",
-        "the match root is a node gogrep matched (never absent)",
+        "go/types Sizeof / Alignof assert on type parameters and untyped types below arrays and struct fields; gogrep's matcher state reuses pool "
+        "entry k for the k-th allocation of a MatchNode call and SliceInto slices with the caller's bounds; types.Unalias strips alias nodes at the "
+        "top only (hand-stated in TotalityExt.v, validated by the product / deep sweeps only)",
+        "go2coq filtertotal2: syntax-tree reading of handleMatch / renderMessage / nodeText / hasKnownSize / findSinkType / newRunnerState / "
+        "newRulesRunner / typeIdentical / matchIdentical (fails closed on shapes it does not understand)",
+        "harness/cmd/c07 prodClass: which dispatch bucket a pattern root is filed under (hand-assigned; a wrong entry costs coverage only)",
         "harness/cmd/c07 (per-report checks under recover)",
     ]
-    c.notes += ["panics inside go/types, gogrep, typematch or quasigo on inputs not covered by the sweep are outside the model",
+    c.notes += ["panics inside go/types, gogrep, typematch or quasigo beyond the mechanisms of TotalityExt.v, on inputs not covered by the sweeps, are outside the model",
                 "the documented exception (GetType/GetInterface panicking in a custom filter) is not exercised here"]
 
     build_own_theories(c, "Base/Outcome.v", "Base/GoInt.v", "Base/GoSlice.v", "Engine/TruncateSpec.v", "Filters/FilterIR.v", "Filters/Totality.v", "Filters/TotalityExt.v")
@@ -152,35 +164,41 @@ def run(c):
         if not gen_ok:
             return
         keys = sorted(observed)
-        src = ["From Coq Require Import List Bool String.", "From RG.Base Require Import Outcome.",
-               "From RG.Filters Require Import FilterIR Totality.", "From RGW Require Import Gen_FilterTotal.",
-               "Import ListNotations. Local Open Scope string_scope.",
-               "Definition tfs : list tfacts := [{| tf_untyped := false; tf_obj_nil := false |}; {| tf_untyped := true; tf_obj_nil := true |}].",
-               "Fixpoint starts (p s : string) : bool := match p, s with EmptyString, _ => true | String a p', String b s' => Ascii.eqb a b && starts p' s' | _, _ => false end.",
-               "Definition crashes (ctor : string) (shapes : list cshape) (classes : list nclass) (readable : list bool) : bool :=",
-               "  existsb (fun e => (String.eqb (fst e) ctor || starts (ctor ++ \"#\") (fst e)) &&",
-               "    existsb (fun s => existsb (fun tf => existsb (fun c => existsb (fun rd =>",
-               "      negb (is_ok (closure_run_on (snd e) gen_nodetext_guarded gen_text_print_handled gen_text_print_recursive rd s c tf))) readable) classes) tfs) shapes) gen_access.",
-               "Definition known (ctor : string) : bool := existsb (fun e => String.eqb (fst e) ctor) gen_access.",
-               "Definition cases : list (nat * string * list cshape * list nclass * list bool * bool) := ["]
-        src.append(";\n".join('(%d%%nat, "%s", [%s], [%s], [%s], %s)' % (
-            i, k[0], "; ".join(SHAPES[k[1]]), "; ".join(CLASSES.get(k[1], ["NcComment"])), "; ".join(READABLE[k[2]]), coq_bool(observed[k])) for i, k in enumerate(keys)))
-        src.append("].")
-        src.append("Definition RES := Eval vm_compute in map (fun x => match x with (i, _, _, _, _, _) => i end) (filter (fun x => match x with (i, ctor, sh, cl, rd, obs) => "
-                   "negb (known ctor) || negb (Bool.eqb (crashes ctor sh cl rd) obs) end) cases).")
-        src.append("Print RES.")
-        ok, out = c.coq_eval("Cases_%d.v" % state["n"], "\n".join(src), timeout=600)
-        if not ok:
-            c.obligation("coq-eval:Cases_%d.v" % state["n"], False, out[-2000:])
-            return
-        m = re.search(r"RES\s*=\s*(.*?)\s*:\s*list nat", out, re.S)
-        if not m:
-            c.obligation("coq-eval-parse:Cases_%d.v" % state["n"], False, out[-2000:])
-            return
-        for x in re.findall(r"\d+", m.group(1)):
-            k = keys[int(x)]
-            c.fail("corr", "the model's crash prediction for %s on capture shape %s differs from the engine" % k[:2],
-                   input={"ctor": k[0], "shape": k[1], "file": k[2] or "on disk"}, observed={"engine_panicked": observed[k]})
+        prelude = ["From Coq Require Import List Bool String.", "From RG.Base Require Import Outcome.",
+                   "From RG.Filters Require Import FilterIR Totality.", "From RGW Require Import Gen_FilterTotal.",
+                   "Import ListNotations. Local Open Scope string_scope.",
+                   "Definition tfs : list tfacts := [{| tf_untyped := false; tf_obj_nil := false |}; {| tf_untyped := true; tf_obj_nil := true |}].",
+                   "Fixpoint starts (p s : string) : bool := match p, s with EmptyString, _ => true | String a p', String b s' => Ascii.eqb a b && starts p' s' | _, _ => false end.",
+                   "Definition crashes (ctor : string) (shapes : list cshape) (classes : list nclass) (readable : list bool) : bool :=",
+                   "  existsb (fun e => (String.eqb (fst e) ctor || starts (ctor ++ \"#\") (fst e)) &&",
+                   "    existsb (fun s => existsb (fun tf => existsb (fun c => existsb (fun rd =>",
+                   "      negb (is_ok (closure_run_on (snd e) gen_nodetext_guarded gen_text_print_handled gen_text_print_recursive rd s c tf))) readable) classes) tfs) shapes) gen_access.",
+                   "Definition known (ctor : string) : bool := existsb (fun e => String.eqb (fst e) ctor) gen_access.",
+                   "Definition cases : list (nat * string * list cshape * list nclass * list bool * bool) := ["]
+        nshards = 8
+        jobs = []
+        for sh in range(nshards):
+            src = list(prelude)
+            src.append(";\n".join('(%d%%nat, "%s", [%s], [%s], [%s], %s)' % (
+                i, k[0], "; ".join(SHAPES[k[1]]), "; ".join(CLASSES.get(k[1], ["NcComment"])), "; ".join(READABLE[k[2]]), coq_bool(observed[k]))
+                for i, k in enumerate(keys) if i % nshards == sh))
+            src.append("].")
+            src.append("Definition RES := Eval vm_compute in map (fun x => match x with (i, _, _, _, _, _) => i end) (filter (fun x => match x with (i, ctor, sh, cl, rd, obs) => "
+                       "negb (known ctor) || negb (Bool.eqb (crashes ctor sh cl rd) obs) end) cases).")
+            src.append("Print RES.")
+            jobs.append(("Cases_%d_%d.v" % (state["n"], sh), "\n".join(src)))
+        for (fname, _), (ok, out) in zip(jobs, c.coq_eval_many(jobs, timeout=600, workers=8)):
+            if not ok:
+                c.obligation("coq-eval:" + fname, False, out[-2000:])
+                return
+            m = re.search(r"RES\s*=\s*(.*?)\s*:\s*list nat", out, re.S)
+            if not m:
+                c.obligation("coq-eval-parse:" + fname, False, out[-2000:])
+                return
+            for x in re.findall(r"\d+", m.group(1)):
+                k = keys[int(x)]
+                c.fail("corr", "the model's crash prediction for %s on capture shape %s differs from the engine" % k[:2],
+                       input={"ctor": k[0], "shape": k[1], "file": k[2] or "on disk"}, observed={"engine_panicked": observed[k]})
         c.coverage.setdefault("model_vs_impl_cases", 0)
         c.coverage["model_vs_impl_cases"] += len(keys)
         for r in [r for r in runs if r.get("reports")][5:8]:
